@@ -74,6 +74,7 @@ LZ4F_errorCode_t LZ4F_readOpen(LZ4_readFile_t** lz4fRead, FILE* fp)
 {
   char buf[LZ4F_HEADER_SIZE_MAX];
   size_t consumedSize;
+  size_t readSize;
   LZ4F_errorCode_t ret;
 
   if (fp == NULL || lz4fRead == NULL) {
@@ -92,7 +93,8 @@ LZ4F_errorCode_t LZ4F_readOpen(LZ4_readFile_t** lz4fRead, FILE* fp)
   }
 
   (*lz4fRead)->fp = fp;
-  consumedSize = fread(buf, 1, sizeof(buf), (*lz4fRead)->fp);
+  readSize = fread(buf, 1, sizeof(buf), (*lz4fRead)->fp);
+  consumedSize = readSize;
   if (consumedSize < LZ4F_HEADER_SIZE_MIN + LZ4F_ENDMARK_SIZE) {
     LZ4F_freeAndNullReadFile(lz4fRead);
     RETURN_ERROR(io_read);
@@ -131,7 +133,7 @@ LZ4F_errorCode_t LZ4F_readOpen(LZ4_readFile_t** lz4fRead, FILE* fp)
     RETURN_ERROR(allocation_failed);
   }
 
-  (*lz4fRead)->srcBufSize = sizeof(buf) - consumedSize;
+  (*lz4fRead)->srcBufSize = readSize - consumedSize;   /* only what was actually read : the file can be shorter than a maximum-size header */
   memcpy((*lz4fRead)->srcBuf, buf + consumedSize, (*lz4fRead)->srcBufSize);
 
   return ret;
